@@ -47,6 +47,15 @@ func checkC16(w *World, tier string) *Report {
 		return name == "GetHashFn" || strings.HasPrefix(name, "GetHashFn$") || name == "NewEVMBlockContext" || name == "CanTransfer" || name == "Transfer"
 	})
 	r.need("R16.6", 3)
+	// seventh batch: what the constructor does to the contexts it is given. BlockContext is passed by value but its
+	// big numbers are shared by every EVM built for the block: NewEVM and the context setters embed the reference's
+	// (which only store them) with reviewed insertions — an insertion that writes through such a pointer
+	// (`blockCtx.BaseFee.SetUint64(0)`) changes what every later EVM of the block reads
+	w.e1().cloneRule(r, "R16.7", pkVM, func(name string, pr *PairResult) bool {
+		return name == "NewEVM" || name == "(*EVM).Reset" || name == "(*EVM).SetBlockContext" || name == "(*Contract).isCode" || name == "(*Contract).validJumpdest" || name == "ActivePrecompiles"
+	})
+	r.need("R16.7", 4)
+	r.Explanation += " R16.7 (shared with C01) NewEVM, Reset, SetBlockContext, Contract.isCode/validJumpdest (the JUMPDEST analysis cache) and ActivePrecompiles are the reference's, with reviewed insertions only: they write nothing that outlives the execution or is shared with other EVMs. R16.5 also covers fork-added package-level sync.Map/sync.Pool values."
 	r.Explanation += " R16.6 core.GetHashFn (the BLOCKHASH provider shared by the executions of a block, with its ancestor cache), NewEVMBlockContext, CanTransfer and Transfer are SSA clones of the reference."
 	return r
 }
@@ -70,6 +79,14 @@ func checkC17(w *World, tier string) *Report {
 	r.Assumptions = append(r.Assumptions, "StateDB instances are not shared between concurrently running EVMs (stated in the property)", "sync.Pool and sync/atomic are safe for concurrent use")
 	addSharedClosureStateRule(w, r, "R17.5")
 	addMutableGlobalRule(w, r, "R16.5")
+	// seventh batch: the inherited package-level lists and tables that every EVM of the process reads (the
+	// PrecompiledAddresses* slices handed out by ActivePrecompiles, the precompile maps) are only read: the functions
+	// that hand them out are the reference's (an in-place sort "for a stable order" makes concurrent set-ups race)
+	w.e1().cloneRule(r, "R17.6", pkVM, func(name string, pr *PairResult) bool {
+		return name == "ActivePrecompiles" || name == "(*EVM).precompile" || name == "NewEVMInterpreter"
+	})
+	r.need("R17.6", 2)
+	r.Explanation += " R17.6 (shared with C01) ActivePrecompiles, EVM.precompile and NewEVMInterpreter — the functions through which every EVM reads the process-wide precompile lists and instruction tables — are the reference's with reviewed insertions only: they do not write what they hand out."
 	addCaptureBalance(w, r, "R18.2")
 	r.Explanation += " R18.2 (shared with C18) every CaptureStart/CaptureEnter of Call and create is matched by its CaptureEnd/CaptureExit on every path, also on the paths an abort takes: a cancelled execution does not leave frame bookkeeping open."
 	return r
@@ -1083,6 +1100,42 @@ func addMutableGlobalRule(w *World, r *Report, rule string) {
 				continue // inherited variable: the reference's
 			}
 			et := g.Type().Underlying().(*types.Pointer).Elem()
+			// a process-wide concurrent container (sync.Map, sync.Pool — by value or by pointer) is a cache shared by
+			// every EVM of the process: what one execution leaves in it, another finds (seventh batch: a JUMPDEST
+			// cache keyed by code hash, where all init code has the zero hash)
+			{
+				ct := et
+				if pt, isPtr := ct.Underlying().(*types.Pointer); isPtr {
+					ct = pt.Elem()
+				}
+				if nt, isNamed := ct.(*types.Named); isNamed && nt.Obj().Pkg() != nil && nt.Obj().Pkg().Path() == "sync" && (nt.Obj().Name() == "Map" || nt.Obj().Name() == "Pool") {
+					n++
+					key := "global:" + pkgShortOf(path) + "." + nm
+					var uses []string
+					for _, fn := range w.forkFuncsAll() {
+						if fn.Pkg == nil || (fn.Name() == "init" && fn.Parent() == nil) || strings.HasPrefix(fn.Name(), "init#") {
+							continue
+						}
+						for _, b := range fn.Blocks {
+							for _, ins := range b.Instrs {
+								var rands []*ssa.Value
+								for _, op := range ins.Operands(rands) {
+									if *op == ssa.Value(g) {
+										uses = append(uses, relName(fn)+" at "+w.pos(ins.Pos()))
+									}
+								}
+							}
+						}
+					}
+					sort.Strings(uses)
+					if len(uses) > 0 {
+						r.violated(rule, key, w.pos(g.Pos()), "fork-added package-level "+nt.Obj().Pkg().Name()+"."+nt.Obj().Name()+" is used by "+strings.Join(uses, "; ")+": a process-wide cache carries results from one execution into the next, so equal executions need not give equal results")
+					} else {
+						r.holds(rule, key, w.pos(g.Pos()), "fork-added package-level concurrent container is used nowhere outside init")
+					}
+					continue
+				}
+			}
 			switch et.Underlying().(type) {
 			case *types.Slice, *types.Map:
 			default:
